@@ -279,3 +279,5 @@ require (
 )
 
 replace github.com/shutter-network/rolling-shutter/rolling-shutter => /repo/rolling-shutter
+
+replace github.com/shutter-network/shutter/shlib => /verif/build/deps/shlib
